@@ -105,3 +105,469 @@ def ag1(proj, rep):
                 rep.violation('F3', FN, f'`{ast.unparse(c)[:70]}`: the un-clipped ratio evaluates to 1+ulp for axis-aligned Euler angles (alpha or gamma '
                               f'equal to 0 or pi) -> NaN', m, c)
     return n
+
+
+# ------------------------------------------------------------------------------------------------ AG2
+RULE_AG2 = ('AG2: the literal SU(2) -> SO(3) entry polynomials are the adjoint representation: with U = [[a, b], [-conj(b), conj(a)]] (the structure the '
+            'function asserts) every entry (i,j) stacked by su2_to_so3 equals 1/2 Tr(sigma_i U sigma_j U^dagger) as a polynomial in a, conj(a), b, '
+            'conj(b) (exact arithmetic over Q(i)); the seven entries su2_to_angle hands to the angle extractor equal the entries of that matrix '
+            'at the (row, col) positions named by the extractor\'s parameters xRC; so3_to_angle passes np0[:, R, C] for parameter xRC.')
+
+
+def _su2_env():
+    from ..cpoly import CPoly
+    return {k: CPoly.var(k) for k in ('a', 'aH', 'b', 'bH')}
+
+
+def _adjoint_entries():
+    """1/2 Tr(sigma_i U sigma_j U^dagger) for U = [[a, b], [-bH, aH]] as CPoly, i, j in 0..2"""
+    from ..cpoly import CPoly
+    v = _su2_env()
+    one, zero, I = CPoly.const(1), CPoly.const(0), CPoly.const(1j)
+    U = [[v['a'], v['b']], [-v['bH'], v['aH']]]
+    Ud = [[v['aH'], -v['b']], [v['bH'], v['a']]]
+    sig = [[[zero, one], [one, zero]], [[zero, -I], [I, zero]], [[one, zero], [zero, -one]]]
+
+    def mm(A, B):
+        return [[A[r][0] * B[0][c] + A[r][1] * B[1][c] for c in range(2)] for r in range(2)]
+    half = CPoly.const(0.5)
+    out = {}
+    for i in range(3):
+        for j in range(3):
+            M = mm(mm(mm(sig[i], U), sig[j]), Ud)
+            out[(i, j)] = (M[0][0] + M[1][1]) * half
+    return out
+
+
+def ag2(proj, rep):
+    from ..cpoly import from_ast, Unsupported
+    rep.rule('AG2', RULE_AG2)
+    MODQ = 'numqi.group._lie'
+    m = proj.mod(MODQ)
+    rep.touch(m)
+    n = 0
+    truth = _adjoint_entries()
+    env = _su2_env()
+    # ---- structure facts: a = np0[:,0,0], b = np0[:,0,1], aH = a.conj(), bH = b.conj(); asserts U11 = conj(U00), U10 = -conj(U01)
+    for q in ('su2_to_so3', 'su2_to_angle'):
+        f = proj.func(f'{MODQ}.{q}')
+        binds = {s.targets[0].id: ast.unparse(s.value).replace(' ', '') for s in f.node.body
+                 if isinstance(s, ast.Assign) and isinstance(s.targets[0], ast.Name) and s.targets[0].id in ('a', 'aH', 'b', 'bH')}
+        asserts = [ast.unparse(s.test).replace(' ', '') for s in f.node.body if isinstance(s, ast.Assert)]
+        ok_b = binds == {'a': 'np0[:,0,0]', 'aH': 'a.conj()', 'b': 'np0[:,0,1]', 'bH': 'b.conj()'}
+        ok_a = any('np0[:,0,0]-np0[:,1,1].conj()' in t for t in asserts) and any('np0[:,1,0]+np0[:,0,1].conj()' in t for t in asserts)
+        n += 1
+        if ok_b and ok_a:
+            rep.ok('AG2', f'{f.qual}[structure]', 'a = U00, b = U01, U11 = conj(a), U10 = -conj(b) asserted', m, f.node, text=f'{q} structure')
+        else:
+            rep.undecided('AG2', f'{f.qual}[structure]', f'bindings {binds} / assertions not the recognised SU(2) parametrisation', m, f.node, text=f'{q} structure')
+            n -= 1
+            return n
+    # ---- su2_to_so3 entries
+    f = proj.func(f'{MODQ}.su2_to_so3')
+    stack = next((c for c in ast.walk(f.node) if isinstance(c, ast.Call) and ast.unparse(c.func).endswith('stack') and c.args
+                  and isinstance(c.args[0], ast.List) and len(c.args[0].elts) == 9), None)
+    so3 = {}
+    if stack is None:
+        rep.undecided('AG2', f.qual, '9-entry stack not found', m, f.node, text='su2_to_so3 stack')
+    else:
+        for k, e in enumerate(stack.args[0].elts):
+            i, j = divmod(k, 3)
+            n += 1
+            try:
+                p = from_ast(e, env)
+            except Unsupported as ex:
+                rep.undecided('AG2', f'{f.qual}[{i},{j}]', f'entry not polynomial: {ex}', m, e)
+                n -= 1
+                continue
+            so3[(i, j)] = p
+            if p == truth[(i, j)]:
+                rep.ok('AG2', f'{f.qual}[{i},{j}]', f'`{ast.unparse(e)}` = 1/2 Tr(s_{i} U s_{j} U^dag)', m, e)
+            elif p == truth[(j, i)]:
+                rep.violation('AG2', f'{f.qual}[{i},{j}]', f'`{ast.unparse(e)}` is the ({j},{i}) entry of the adjoint representation: the matrix is transposed here '
+                              f'(an anti-homomorphism where it differs)', m, e)
+            else:
+                rep.violation('AG2', f'{f.qual}[{i},{j}]', f'`{ast.unparse(e)}` differs from 1/2 Tr(sigma_{i} U sigma_{j} U^dagger) as a polynomial in a, conj a, b, conj b', m, e)
+    # ---- su2_to_angle entries against the parameter names of the extractor
+    g = proj.func(f'{MODQ}._so3_to_angle_hf0')
+    pos = []
+    for p in g.all_params:
+        if len(p) == 3 and p[0] == 'x' and p[1:].isdigit():
+            pos.append((int(p[1]), int(p[2])))
+    f = proj.func(f'{MODQ}.su2_to_angle')
+    lst = next((s.value for s in f.node.body if isinstance(s, ast.Assign) and isinstance(s.value, ast.List) and len(s.value.elts) == len(pos)), None)
+    call = next((c for c in ast.walk(f.node) if isinstance(c, ast.Call) and ast.unparse(c.func) == '_so3_to_angle_hf0'), None)
+    if lst is None or call is None or not (call.args and isinstance(call.args[0], ast.Starred)):
+        rep.undecided('AG2', f.qual, 'entry list / starred call of the extractor not found', m, f.node, text='su2_to_angle entries')
+    else:
+        for (i, j), e in zip(pos, lst.elts):
+            n += 1
+            try:
+                p = from_ast(e, env)
+            except Unsupported as ex:
+                rep.undecided('AG2', f'{f.qual}[x{i}{j}]', f'entry not polynomial: {ex}', m, e)
+                n -= 1
+                continue
+            if p == truth[(i, j)]:
+                rep.ok('AG2', f'{f.qual}[x{i}{j}]', f'`{ast.unparse(e)}` = R[{i},{j}]', m, e)
+            else:
+                where = [k for k, v in truth.items() if v == p]
+                rep.violation('AG2', f'{f.qual}[x{i}{j}]', f'`{ast.unparse(e)}` is handed to the extractor as x{i}{j} but it is '
+                              f'{"R" + str(list(where[0])) if where else "not an entry"} of the SO(3) image (su2_to_so3 has `{ast.unparse(stack.args[0].elts[3 * i + j]) if stack is not None else "?"}` there)', m, e)
+    # ---- so3_to_angle argument slots
+    f = proj.func(f'{MODQ}.so3_to_angle')
+    call = next((c for c in ast.walk(f.node) if isinstance(c, ast.Call) and ast.unparse(c.func) == '_so3_to_angle_hf0'), None)
+    if call is None:
+        rep.undecided('AG2', f.qual, 'extractor call not found', m, f.node, text='so3_to_angle slots')
+    else:
+        for (i, j), e in zip(pos, call.args):
+            n += 1
+            t = ast.unparse(e).replace(' ', '')
+            if t == f'np0[:,{i},{j}]':
+                rep.ok('AG2', f'{f.qual}[x{i}{j}]', f'{t} -> x{i}{j}', m, e)
+            elif t.startswith('np0[:,'):
+                rep.violation('AG2', f'{f.qual}[x{i}{j}]', f'`{t}` is passed in the slot of parameter x{i}{j}', m, e)
+            else:
+                rep.undecided('AG2', f'{f.qual}[x{i}{j}]', f'argument `{t}` not recognised', m, e)
+                n -= 1
+    rep.count('AG2.obligations', n)
+    return n
+
+
+# ------------------------------------------------------------------------------------------------ AG3
+RULE_AG3 = ('AG3: Euler-angle constructor and extractor agree symbolically. (a) the nine literal entries of angle_to_so3 equal Rz(alpha) Ry(beta) Rz(gamma) as '
+            'polynomials in cos/sin of the three angles; (b) the extractor reads beta from an entry that equals cos(beta); in the beta~0 (beta~pi) branch the two '
+            'arctan2 arguments equal sin and cos of alpha+gamma (alpha-gamma) once cos(beta)=+1 (-1), sin(beta)=0 are substituted, and the stored '
+            '(alpha, gamma) reproduce that combination; in the generic branch each arccos argument times sin(beta) equals sin(beta)*cos(angle) and the '
+            'sign-test entry equals sin(beta)*sin(angle) for the angle being stored.')
+
+
+def _trig_env():
+    from ..cpoly import CPoly
+    return {k: CPoly.var(k) for k in ('ca', 'sa', 'cb', 'sb', 'cg', 'sg')}
+
+
+def _subst(p, val):
+    """substitute constants for variables in a CPoly: val = {var: Fraction-like}"""
+    from ..cpoly import CPoly
+    from fractions import Fraction
+    out = CPoly()
+    for k, (a, b) in p.t.items():
+        ca, cb_ = a, b
+        rest = []
+        for n, e in k:
+            if n in val:
+                f = Fraction(val[n]) ** e
+                ca, cb_ = ca * f, cb_ * f
+            else:
+                rest.append((n, e))
+        out = out + CPoly({tuple(rest): (ca, cb_)})
+    return out
+
+
+def ag3(proj, rep):
+    from ..cpoly import CPoly, from_ast, Unsupported
+    rep.rule('AG3', RULE_AG3)
+    MODQ = 'numqi.group._lie'
+    m = proj.mod(MODQ)
+    n = 0
+    v = _trig_env()
+    one, zero = CPoly.const(1), CPoly.const(0)
+
+    def rz(c, s):
+        return [[c, -s, zero], [s, c, zero], [zero, zero, one]]
+
+    def ry(c, s):
+        return [[c, zero, s], [zero, one, zero], [-s, zero, c]]
+
+    def mm(A, B):
+        return [[A[r][0] * B[0][c] + A[r][1] * B[1][c] + A[r][2] * B[2][c] for c in range(3)] for r in range(3)]
+    truth = mm(mm(rz(v['ca'], v['sa']), ry(v['cb'], v['sb'])), rz(v['cg'], v['sg']))
+    f = proj.func(f'{MODQ}.angle_to_so3')
+    binds = {s.targets[0].id: ast.unparse(s.value).replace(' ', '') for s in f.node.body
+             if isinstance(s, ast.Assign) and isinstance(s.targets[0], ast.Name) and s.targets[0].id in v}
+    want = {'ca': 'np.cos(alpha)', 'sa': 'np.sin(alpha)', 'cb': 'np.cos(beta)', 'sb': 'np.sin(beta)', 'cg': 'np.cos(gamma)', 'sg': 'np.sin(gamma)'}
+    n += 1
+    if binds != want:
+        rep.undecided('AG3', f'{f.qual}[bindings]', f'cos/sin bindings {binds} not recognised', m, f.node, text='trig bindings')
+        return n - 1
+    rep.ok('AG3', f'{f.qual}[bindings]', 'ca..sg are cos/sin of alpha, beta, gamma', m, f.node, text='trig bindings')
+    stack = next((c for c in ast.walk(f.node) if isinstance(c, ast.Call) and ast.unparse(c.func).endswith('stack') and c.args
+                  and isinstance(c.args[0], ast.List) and len(c.args[0].elts) == 9), None)
+    if stack is None:
+        rep.undecided('AG3', f.qual, '9-entry stack not found', m, f.node, text='angle_to_so3 stack')
+        return n
+    R = {}
+    for k, e in enumerate(stack.args[0].elts):
+        i, j = divmod(k, 3)
+        n += 1
+        try:
+            p = from_ast(e, v)
+        except Unsupported as ex:
+            rep.undecided('AG3', f'{f.qual}[{i},{j}]', f'entry not polynomial: {ex}', m, e)
+            n -= 1
+            continue
+        R[(i, j)] = p
+        if p == truth[i][j]:
+            rep.ok('AG3', f'{f.qual}[{i},{j}]', f'`{ast.unparse(e)}` = (Rz(alpha) Ry(beta) Rz(gamma))[{i},{j}]', m, e)
+        else:
+            rep.violation('AG3', f'{f.qual}[{i},{j}]', f'`{ast.unparse(e)}` is not the ({i},{j}) entry of Rz(alpha) Ry(beta) Rz(gamma): the matrix is not a rotation '
+                          f'with these Euler angles / does not match the extractor', m, e)
+    if len(R) != 9:
+        return n
+    # ---- extractor
+    g = proj.func(f'{MODQ}._so3_to_angle_hf0')
+
+    def entry(e):
+        """CPoly of +-xRC or xRC[mask] expressions"""
+        sign = 1
+        while isinstance(e, ast.UnaryOp) and isinstance(e.op, ast.USub):
+            sign, e = -sign, e.operand
+        if isinstance(e, ast.Subscript):
+            e = e.value
+        if isinstance(e, ast.Name) and len(e.id) == 3 and e.id[0] == 'x' and e.id[1:].isdigit():
+            p = R[(int(e.id[1]), int(e.id[2]))]
+            return p if sign > 0 else -p
+        return None
+    # beta
+    n += 1
+    bst = next((s for s in g.node.body if isinstance(s, ast.Assign) and isinstance(s.targets[0], ast.Name) and s.targets[0].id == 'beta'), None)
+    bent = None
+    if bst is not None:
+        for x in ast.walk(bst.value):
+            if isinstance(x, ast.Name) and x.id.startswith('x') and x.id[1:].isdigit():
+                bent = R[(int(x.id[1]), int(x.id[2]))]
+    if bent is None or 'arccos' not in ast.unparse(bst.value):
+        rep.undecided('AG3', f'{g.qual}[beta]', 'beta = arccos(entry) not found', m, g.node, text='beta')
+        n -= 1
+    elif bent == v['cb']:
+        rep.ok('AG3', f'{g.qual}[beta]', 'beta = arccos(entry equal to cos(beta))', m, bst)
+    else:
+        rep.violation('AG3', f'{g.qual}[beta]', f'`{ast.unparse(bst)[:70]}` reads an entry that is not cos(beta) in angle_to_so3', m, bst)
+    masks = {}
+    for s in g.node.body:
+        if isinstance(s, ast.Assign) and isinstance(s.targets[0], ast.Name) and isinstance(s.value, ast.Compare):
+            t = ast.unparse(s.value).replace(' ', '')
+            if t.startswith('beta<'):
+                masks[s.targets[0].id] = +1
+            elif t.startswith('beta>'):
+                masks[s.targets[0].id] = -1
+    sin_sum = {+1: v['sa'] * v['cg'] + v['ca'] * v['sg'], -1: v['sa'] * v['cg'] - v['ca'] * v['sg']}
+    cos_sum = {+1: v['ca'] * v['cg'] - v['sa'] * v['sg'], -1: v['ca'] * v['cg'] + v['sa'] * v['sg']}
+    for blk in [s for s in g.node.body if isinstance(s, ast.If)]:
+        from .masks import _any_mask
+        mk = _any_mask(blk.test)
+        if mk in masks:
+            sgn = masks[mk]
+            at = next((c for c in ast.walk(blk) if isinstance(c, ast.Call) and ast.unparse(c.func).endswith('arctan2')), None)
+            n += 1
+            if at is None:
+                rep.undecided('AG3', f'{g.qual}[{mk}]', 'arctan2 not found in the degenerate branch', m, blk)
+                n -= 1
+                continue
+            y, x = entry(at.args[0]), entry(at.args[1])
+            if y is None or x is None:
+                rep.undecided('AG3', f'{g.qual}[{mk}]', 'arctan2 arguments are not +-matrix entries', m, at)
+                n -= 1
+                continue
+            sub = {'cb': sgn, 'sb': 0}
+            ys, xs = _subst(y, sub), _subst(x, sub)
+            name = 'alpha+gamma' if sgn > 0 else 'alpha-gamma'
+            if ys == sin_sum[sgn] and xs == cos_sum[sgn]:
+                rep.ok('AG3', f'{g.qual}[{mk}]', f'arctan2 arguments are (sin, cos) of {name} at cos(beta)={sgn:+d}', m, at)
+            else:
+                rep.violation('AG3', f'{g.qual}[{mk}]', f'`{ast.unparse(at)}`: at cos(beta)={sgn:+d}, sin(beta)=0 the arguments are not (sin({name}), cos({name})) of the '
+                              f'matrix built by angle_to_so3: the recovered combination has the wrong sign / entry', m, at)
+            # stored combination
+            n += 1
+            coef = {}
+            tvar = None
+            for s in blk.body:
+                if isinstance(s, ast.Assign) and isinstance(s.targets[0], ast.Subscript) and isinstance(s.targets[0].value, ast.Name) \
+                        and s.targets[0].value.id in ('alpha', 'gamma'):
+                    t = ast.unparse(s.value).replace(' ', '')
+                    from fractions import Fraction
+                    if t == 'tmp0':
+                        coef[s.targets[0].value.id] = Fraction(1)
+                    elif t == 'tmp0/2':
+                        coef[s.targets[0].value.id] = Fraction(1, 2)
+                    elif t == '0':
+                        coef[s.targets[0].value.id] = Fraction(0)
+                    elif t == '-tmp0':
+                        coef[s.targets[0].value.id] = Fraction(-1)
+                    elif t == '-tmp0/2':
+                        coef[s.targets[0].value.id] = Fraction(-1, 2)
+            if set(coef) != {'alpha', 'gamma'}:
+                rep.undecided('AG3', f'{g.qual}[{mk} store]', 'stored angles not recognised', m, blk)
+                n -= 1
+            elif coef['alpha'] + sgn * coef['gamma'] == 1:
+                rep.ok('AG3', f'{g.qual}[{mk} store]', f'stored angles satisfy {name} = recovered angle', m, blk)
+            else:
+                rep.violation('AG3', f'{g.qual}[{mk} store]', f'stored alpha = {coef["alpha"]}*t, gamma = {coef["gamma"]}*t do not give {name} = t: the rebuilt matrix differs', m, blk)
+        elif mk is not None:
+            # generic branch: pairs (arccos argument, sign-test entry) followed by a store into gamma / alpha
+            pend = {}
+            for s in blk.body:
+                if isinstance(s, ast.Assign) and isinstance(s.targets[0], ast.Name):
+                    pend[s.targets[0].id] = s.value
+                if isinstance(s, ast.Assign) and isinstance(s.targets[0], ast.Subscript) and isinstance(s.targets[0].value, ast.Name) \
+                        and s.targets[0].value.id in ('alpha', 'gamma'):
+                    ang = s.targets[0].value.id
+                    c_, s_ = (v['ca'], v['sa']) if ang == 'alpha' else (v['cg'], v['sg'])
+                    names = [x.id for x in ast.walk(s.value) if isinstance(x, ast.Name) and x.id in pend]
+                    acos = next((pend[k] for k in names if 'arccos' in ast.unparse(pend[k])), None)
+                    test = next((pend[k] for k in names if isinstance(pend[k], ast.Compare)), None)
+                    n += 1
+                    if acos is None or test is None:
+                        rep.undecided('AG3', f'{g.qual}[generic {ang}]', 'arccos / sign-test pair not found', m, s)
+                        n -= 1
+                        continue
+                    ce = next((entry(x) for x in ast.walk(acos) if isinstance(x, (ast.UnaryOp, ast.Subscript)) and entry(x) is not None), None)
+                    se = next((entry(x) for x in ast.walk(test) if isinstance(x, (ast.UnaryOp, ast.Subscript)) and entry(x) is not None), None)
+                    lt = isinstance(test.ops[0], ast.Lt)
+                    if ce is None or se is None:
+                        rep.undecided('AG3', f'{g.qual}[generic {ang}]', 'entries of the arccos / sign test not recognised', m, s)
+                        n -= 1
+                    elif ce == v['sb'] * c_ and se == v['sb'] * s_ and lt:
+                        rep.ok('AG3', f'{g.qual}[generic {ang}]', f'arccos entry = sin(beta) cos({ang}), sign entry = sin(beta) sin({ang})', m, s)
+                    else:
+                        rep.violation('AG3', f'{g.qual}[generic {ang}]', f'the entries used for {ang} are not (sin(beta) cos({ang}), sin(beta) sin({ang})) of the '
+                                      f'matrix built by angle_to_so3 (wrong entry or sign): the extracted {ang} does not rebuild the matrix', m, s)
+    rep.count('AG3.obligations', n)
+    return n
+
+
+# ------------------------------------------------------------------------------------------------ AG4
+RULE_AG4 = ('AG4: the double cover is consistent: su2_to_so3 applied symbolically to the literal entries of angle_to_su2(alpha, beta, gamma) equals the literal '
+            'entries of angle_to_so3(alpha, beta, gamma), as polynomials in p = e^{i alpha/2}, q = e^{i gamma/2}, c = cos(beta/2), s = sin(beta/2) modulo '
+            'p*conj(p) = q*conj(q) = 1 and c^2 + s^2 = 1 (exact arithmetic).')
+
+
+def _reduce_unit(p):
+    """normal form modulo p*pi=1, q*qi=1, c2^2 = 1 - s2^2"""
+    from ..cpoly import CPoly
+    changed = True
+    cur = p
+    while changed:
+        changed = False
+        out = CPoly()
+        for k, coef in cur.t.items():
+            d = dict(k)
+            did = False
+            for a, b in (('p', 'pi'), ('q', 'qi')):
+                mpow = min(d.get(a, 0), d.get(b, 0))
+                if mpow:
+                    d[a] -= mpow
+                    d[b] -= mpow
+                    did = True
+            d = {n: e for n, e in d.items() if e}
+            if d.get('c2', 0) >= 2:
+                d2 = dict(d)
+                d2['c2'] -= 2
+                d2 = {n: e for n, e in d2.items() if e}
+                d3 = dict(d2)
+                d3['s2'] = d3.get('s2', 0) + 2
+                out = out + CPoly({tuple(sorted(d2.items())): coef}) - CPoly({tuple(sorted(d3.items())): coef})
+                changed = True
+                continue
+            if did:
+                changed = True
+            out = out + CPoly({tuple(sorted(d.items())): coef})
+        cur = out
+    return cur
+
+
+def _compose(p, sub):
+    """substitute CPoly values for variables"""
+    from ..cpoly import CPoly
+    out = CPoly()
+    for k, coef in p.t.items():
+        term = CPoly({(): coef})
+        for nme, e in k:
+            for _ in range(e):
+                term = term * sub[nme]
+        out = out + term
+    return out
+
+
+def ag4(proj, rep):
+    from ..cpoly import CPoly, from_ast, Unsupported
+    from fractions import Fraction
+    rep.rule('AG4', RULE_AG4)
+    MODQ = 'numqi.group._lie'
+    m = proj.mod(MODQ)
+    f = proj.func(f'{MODQ}.angle_to_su2')
+    P = {k: CPoly.var(k) for k in ('p', 'pi', 'q', 'qi', 'c2', 's2')}
+    binds = {s.targets[0].id: ast.unparse(s.value).replace(' ', '') for s in f.node.body if isinstance(s, ast.Assign) and isinstance(s.targets[0], ast.Name)}
+    want = {'exp_apg': 'np.exp(0.5j*(alpha+gamma))', 'exp_amg': 'np.exp(0.5j*(alpha-gamma))', 'cb': 'np.cos(beta/2)', 'sb': 'np.sin(beta/2)'}
+    if any(binds.get(k) != w for k, w in want.items()):
+        rep.undecided('AG4', f.qual, 'half-angle bindings not recognised', m, f.node, text='half-angle bindings')
+        return 0
+    env = {'exp_apg': P['p'] * P['q'], 'exp_apg_conj': P['pi'] * P['qi'], 'exp_amg': P['p'] * P['qi'], 'exp_amg_conj': P['pi'] * P['q'],
+           'cb': P['c2'], 'sb': P['s2']}
+
+    class Conj(ast.NodeTransformer):
+        def visit_Call(self, n):
+            n = self.generic_visit(n)
+            if isinstance(n.func, ast.Attribute) and n.func.attr == 'conj' and isinstance(n.func.value, ast.Name) and not n.args:
+                return ast.Name(id=n.func.value.id + '_conj', ctx=ast.Load())
+            return n
+    stack = next((c for c in ast.walk(f.node) if isinstance(c, ast.Call) and ast.unparse(c.func).endswith('stack') and c.args
+                  and isinstance(c.args[0], ast.List) and len(c.args[0].elts) == 4), None)
+    if stack is None:
+        rep.undecided('AG4', f.qual, '4-entry stack not found', m, f.node, text='angle_to_su2 stack')
+        return 0
+    try:
+        U = [from_ast(Conj().visit(ast.parse(ast.unparse(e), mode='eval').body), env) for e in stack.args[0].elts]
+    except Unsupported as ex:
+        rep.undecided('AG4', f.qual, f'entry not polynomial: {ex}', m, stack)
+        return 0
+    n = 0
+
+    def cj(p):
+        return _compose(p, {'p': P['pi'], 'pi': P['p'], 'q': P['qi'], 'qi': P['q'], 'c2': P['c2'], 's2': P['s2']}).__class__(
+            {k: (a, -b) for k, (a, b) in _compose(p, {'p': P['pi'], 'pi': P['p'], 'q': P['qi'], 'qi': P['q'], 'c2': P['c2'], 's2': P['s2']}).t.items()})
+    # structure the converters assert: U11 = conj(U00), U10 = -conj(U01)
+    n += 1
+    if _reduce_unit(U[3] - cj(U[0])).is_zero() and _reduce_unit(U[2] + cj(U[1])).is_zero():
+        rep.ok('AG4', f'{f.qual}[structure]', 'U11 = conj(U00), U10 = -conj(U01)', m, stack)
+    else:
+        rep.violation('AG4', f'{f.qual}[structure]', 'the literal entries are not of the form [[a, b], [-conj b, conj a]]: the matrix is not in SU(2) '
+                      '(su2_to_angle / su2_to_so3 assert this form)', m, stack)
+        return n
+    # su2_to_so3 entries in a, aH, b, bH
+    g = proj.func(f'{MODQ}.su2_to_so3')
+    st2 = next((c for c in ast.walk(g.node) if isinstance(c, ast.Call) and ast.unparse(c.func).endswith('stack') and c.args
+                and isinstance(c.args[0], ast.List) and len(c.args[0].elts) == 9), None)
+    h = proj.func(f'{MODQ}.angle_to_so3')
+    st3 = next((c for c in ast.walk(h.node) if isinstance(c, ast.Call) and ast.unparse(c.func).endswith('stack') and c.args
+                and isinstance(c.args[0], ast.List) and len(c.args[0].elts) == 9), None)
+    if st2 is None or st3 is None:
+        rep.undecided('AG4', MODQ, 'su2_to_so3 / angle_to_so3 stacks not found', m, f.node, text='stacks')
+        return n
+    sub_su2 = {'a': U[0], 'b': U[1], 'aH': cj(U[0]), 'bH': cj(U[1])}
+    half, I = CPoly.const(Fraction(1, 2)), CPoly.const(1j)
+    minus_half_i = CPoly.const(-0.5j)
+    sub_trig = {'ca': (P['p'] * P['p'] + P['pi'] * P['pi']) * half, 'sa': (P['p'] * P['p'] - P['pi'] * P['pi']) * minus_half_i,
+                'cg': (P['q'] * P['q'] + P['qi'] * P['qi']) * half, 'sg': (P['q'] * P['q'] - P['qi'] * P['qi']) * minus_half_i,
+                'cb': P['c2'] * P['c2'] - P['s2'] * P['s2'], 'sb': P['c2'] * P['s2'] * CPoly.const(2)}
+    e1 = _su2_env()
+    e2 = _trig_env()
+    for k in range(9):
+        i, j = divmod(k, 3)
+        n += 1
+        try:
+            lhs = _reduce_unit(_compose(from_ast(st2.args[0].elts[k], e1), sub_su2))
+            rhs = _reduce_unit(_compose(from_ast(st3.args[0].elts[k], e2), sub_trig))
+        except Unsupported as ex:
+            rep.undecided('AG4', f'{MODQ}[{i},{j}]', f'entry not polynomial: {ex}', m, st2.args[0].elts[k])
+            n -= 1
+            continue
+        if lhs == rhs:
+            rep.ok('AG4', f'{MODQ}[{i},{j}]', 'su2_to_so3(angle_to_su2(angles)) = angle_to_so3(angles)', m, st3.args[0].elts[k])
+        else:
+            rep.violation('AG4', f'{MODQ}[{i},{j}]', f'entry ({i},{j}): su2_to_so3 of the literal angle_to_su2 matrix differs from the literal angle_to_so3 entry '
+                          f'`{ast.unparse(st3.args[0].elts[k])}`: the two conventions (Euler order / sign / half angle) disagree, so so3 <-> su2 '
+                          f'conversions do not commute with the angle maps', m, st3.args[0].elts[k])
+    rep.count('AG4.obligations', n)
+    return n
